@@ -1,0 +1,45 @@
+//go:build verif
+
+package layout
+
+import (
+	"fmt"
+
+	bo "github.com/benoitkugler/webrender/html/boxes"
+	"github.com/benoitkugler/webrender/html/tree"
+)
+
+// VerifPageHook, when set by the external verification harness (build tag
+// verif), is called once per iteration of the page loop of makeAllPages with
+// the page index, a canonical rendering of the resume point handed to the
+// next page, the numbers of pending out-of-flow boxes and reported footnotes,
+// and the page box. It must not modify anything.
+var VerifPageHook func(index int, resumeAt string, pendingOutOfFlow, pendingFootnotes int, page *bo.PageBox)
+
+func verifPageMade(context *layoutContext, index int, resumeAt tree.ResumeStack, reportedFootnotes int, page *bo.PageBox) {
+	if VerifPageHook == nil {
+		return
+	}
+	VerifPageHook(index, verifResumeString(resumeAt), len(context.brokenOutOfFlow), reportedFootnotes, page)
+}
+
+func verifResumeString(r tree.ResumeStack) string {
+	if r == nil {
+		return "nil"
+	}
+	s := "{"
+	// ResumeStack has at most a few keys; print them in increasing order
+	keys := make([]int, 0, len(r))
+	for k := range r {
+		keys = append(keys, k)
+	}
+	for i := 1; i < len(keys); i++ {
+		for j := i; j > 0 && keys[j] < keys[j-1]; j-- {
+			keys[j], keys[j-1] = keys[j-1], keys[j]
+		}
+	}
+	for _, k := range keys {
+		s += fmt.Sprintf("%d:%s,", k, verifResumeString(r[k]))
+	}
+	return s + "}"
+}
